@@ -668,6 +668,10 @@ class Ref:
         self.insts.pop(op["inst"], None)
         return {"res": None, "exc": None, "execs": [], "state": None, "noop": True}
 
+    def op_attach_probe(self, op, epoch):
+        inst = self.insts[op["inst"]]
+        return {"res": None, "exc": None, "execs": [], "state": inst.state}
+
     def op_setopt(self, op, epoch):
         """``sm.allow_event_without_transition = <bool>`` on a live machine (a public attribute that
         the engines read at every event)."""
